@@ -10,6 +10,41 @@ CLAIMED = {
          "For each of the 16 column kinds, every history up to depth d over insert/overwrite/merge/delete+reuse/multi-write/cross-block/late-column letters is run on the real code on every preset and capacity; after every step every live row is read through three reader paths and compared bit-for-bit with the model. Exhaustive within alphabet and depth, so a wrong width, missing presence bit, growth gap or interning mix-up reachable in d steps is found.",
          "Trusted: Go toolchain, reference model (plain maps, harness/model). Values from per-kind extreme alphabets; depth-bounded; bulk filler rows value-checked on a sample of offsets.",
          "DESIGN.md §8 C01"),
+ "C02": ("model_checking",
+         "bounded-exhaustive differential exploration of transaction histories (collection vs. reference model vs. a shadow collection that never runs the failing transactions); SCHED part: preemption-bounded exhaustive interleavings of a writer and an observer",
+         "Every history up to depth d of committing and rolling-back transactions (successful and failing inserts, updates, merges, deletes, key operations, multi-block) is run on the real code; at every node the collection and a shadow that skipped every failing transaction must both equal the model, later inserts must return the same offsets on both, a rollback must emit nothing and reads inside a body must return committed values.",
+         "Trusted: Go toolchain, reference model, scheduler lock models. Not judged: swallowing a failing insert's error and committing; observations overlapping a multi-block commit loop.",
+         "DESIGN.md §8 C02"),
+ "C06": ("model_checking",
+         "bounded-exhaustive history exploration with a stream replica rebuilt and compared at every explored state (SEQ) and preemption-bounded exhaustive interleavings of concurrent writers (SCHED)",
+         "At every node of every history up to depth d all emitted commits (through commit.Channel clones, the Commit codec and a commit.Log over s2) are replayed in emission order into a fresh collection that must equal the model in rows, values, index contents, key lookups and Count.",
+         "Trusted: Go toolchain, reference model, scheduler lock models. The recording logger deep-copies inside Append.",
+         "DESIGN.md §8 C06"),
+ "C07": ("model_checking",
+         "bounded-exhaustive differential exploration: histories that switch to a restored snapshot mid-way and continue there, compared with a reference model at every state",
+         "Histories up to depth d over all column kinds with letters that snapshot, restore into a fresh collection of each capacity option and continue on the restored copy; every state (incl. second/third generation restores) must equal the model; later inserts must never return a live offset.",
+         "Trusted: Go toolchain, reference model, klauspost/s2. Same schema and index definitions on the target, created before Restore.",
+         "DESIGN.md §8 C07"),
+ "C12": ("model_checking",
+         "bounded-exhaustive key-operation histories against a map model (SEQ) and preemption-bounded exhaustive interleavings of concurrent key operations checked for linearizability by brute force (SCHED)",
+         "Every history up to depth d over single key operations, every ordered pair of them inside one transaction, and error-ending variants on keys {a,b,c}; return values, Row.Key, uniqueness of live rows per key and lookups are compared with a map.",
+         "Trusted: Go toolchain, reference model, scheduler lock models. Within one transaction only the first operation on a key has its return value judged.",
+         "DESIGN.md §8 C12"),
+ "C15": ("model_checking",
+         "bounded-exhaustive history exploration with a recording logger (SEQ) and preemption-bounded exhaustive interleavings of concurrent writers with an apply-order witness (SCHED)",
+         "After every transaction of every history up to depth d: exactly one commit per block in which it buffered an operation and none after rollback / no change; over the whole stream IDs are non-zero, distinct and increasing per block in emission order.",
+         "Trusted: Go toolchain, reference model, scheduler lock models. 'Changed' = buffered an operation for an existing column or a row marker in that block.",
+         "DESIGN.md §8 C15"),
+ "C16": ("model_checking",
+         "bounded-exhaustive history exploration over a two-letter string alphabet with Ascend compared against the model after every filter chain at every state",
+         "Every history up to depth d of inserts, overwrites, concatenating merges, deletes (offset reuse) and late index creation in one and several blocks; Ascend after each of 5 filter chains must visit exactly the selected rows holding a value, once each, in non-decreasing order with readers positioned.",
+         "Trusted: Go toolchain, reference model, tidwall/btree. Depth-bounded.",
+         "DESIGN.md §8 C16"),
+ "C19": ("model_checking",
+         "bounded-exhaustive history exploration with a recording trigger compared against the model's list of committed stores and deletions after every transaction",
+         "Every history up to depth d over stores, merges, put+merge / merge+put, multi-row and multi-block writes, deletes, error-ending transactions and createTrigger/dropTrigger letters for int, string and bool columns; the trigger log must equal the committed stores (final values) and row deletions as a multiset, in issue order per row, and be empty for rollbacks.",
+         "Trusted: Go toolchain, reference model. For bool columns a false store and a row deletion are the same event.",
+         "DESIGN.md §8 C19"),
  "C03": ("model_checking",
          "bounded-exhaustive operation-sequence exploration against a reference model, with replica and snapshot-restore twins compared at every explored state",
          "Every history up to depth d over value writes on both sides of each predicate, merges, put+merge / merge+put in one transaction, deletes with offset reuse and createIndex/dropIndex letters; at every node With(index) and Row.Bool(index) are compared with the predicate over the model on the primary, on a replica built from the emitted stream and on a restored snapshot, each with indexes created before and after the data.",
